@@ -5,6 +5,8 @@
 #define VERIF_MAIN_TU
 #include <pthread.h>
 #include <signal.h>
+#include <sys/wait.h>
+#include <unistd.h>
 
 #include <algorithm>
 #include <memory>
@@ -121,6 +123,8 @@ namespace vf
  * hooks: probe start
  *############################################################################*/
 thread_local int64_t tl_probe_start = -1;
+std::atomic<uint64_t> g_first_call_heartbeat{0};
+std::atomic<uint64_t> g_first_call_toggle{0};
 }  // namespace vf
 
 namespace dbgroup::verif
@@ -135,6 +139,19 @@ ProbeStart(std::size_t dflt, std::size_t cap) noexcept -> std::size_t
 
 namespace vf
 {
+// A thread's first call into IDManager is GetThreadID for two threads out of three and GetHeartBeat for the third (the
+// thread-local state behind the two is created by whichever comes first).
+inline size_t
+FirstClaim()
+{
+  if (g_first_call_toggle.fetch_add(1, kRlx) % 3 == 2) {
+    g_first_call_heartbeat.fetch_add(1, kRlx);
+    const auto hb = ::dbgroup::thread::IDManager::GetHeartBeat();
+    (void)hb;
+  }
+  return ::dbgroup::thread::IDManager::GetThreadID();
+}
+
 struct Cfg {
   std::string mode;
   uint64_t seed{1};
@@ -227,7 +244,7 @@ ThreadBody(uint64_t seed, int pattern, uint64_t hold_ns, std::atomic<int> *gate,
   g_claiming.fetch_add(1);
   tl_probe_count = 0;
   t_chaos.cur_op = 1;
-  const auto id = IDManager::GetThreadID();
+  const auto id = FirstClaim();
   t_chaos.cur_op = 2;
   g_claiming.fetch_sub(1);
   g_claimed.fetch_add(1);
@@ -531,7 +548,7 @@ StormBody(int pattern, uint64_t uidbase, int idx, std::atomic<int> *gate, std::a
   }
   while (gate->load(std::memory_order_acquire) == 0) {
   }
-  const auto id = IDManager::GetThreadID();
+  const auto id = FirstClaim();
   if (id >= kN) {
     Violate("C05", "id-out-of-range", Fmt("GetThreadID returned %zu with capacity %zu (storm, pattern %d)", id, kN, pattern));
   } else {
@@ -615,7 +632,7 @@ ChurnWorker(uint64_t hold_ns)
   const auto uid = g_uid.fetch_add(1) + 1;
   tl_probe_start = -1;
   if (g_preempt_run.load(kRlx)) PreemptRegister();
-  const auto id = IDManager::GetThreadID();
+  const auto id = FirstClaim();
   if (id >= kN) {
     Violate("C05", "id-out-of-range", Fmt("GetThreadID returned %zu with capacity %zu (churn storm)", id, kN));
     PreemptUnregister();
@@ -773,7 +790,7 @@ HandoffBody(HThread *h, int gate_seq, int64_t probe, uint64_t uid)
   if (h->skew_ns != 0) SpinNs(h->skew_ns);
   tl_ho_step_k = h->step_k;
   tl_ho_step_ns = h->step_ns;
-  const auto id = IDManager::GetThreadID();
+  const auto id = FirstClaim();
   tl_ho_step_k = 0;
   StepDisarm();
   g_ho_claims.fetch_add(1, kRlx);
@@ -1014,6 +1031,112 @@ RunHandoff()
   }
   res.signatures.push_back(Fmt("handoff:N=%zu", kN));
   res.samples.push_back(Fmt("{\"mode\":\"handoff\",\"capacity\":%zu,\"steps\":%" PRIu64 ",\"threads\":%" PRIu64 "}", kN, done, uid));
+  EmitResult(res, "ok");
+  return 0;
+}
+
+// mode=bigcap: capacities above 2^8 / 2^16.  Pairs of threads are steered onto slot s >= 2^k and onto slot s - 2^k (k = 8,
+// 16): an ID that is narrowed somewhere on its way from the reservation table to the caller collides with the thread that
+// really owns the low slot.  All threads of a round hold their IDs at the same time.
+int
+RunBigCap()
+{
+  Result res;
+  Rng r;
+  r.Seed(g_cfg.seed * 6151 + kN);
+  uint64_t done = 0, pairs_total = 0;
+  const uint64_t rounds = kN > 256 ? 400 * g_cfg.scale : 0;
+  {
+    // A child process inherits the forking thread and its ID: a new thread of the child that probes the same slot must
+    // not be given that ID (done first, while this process still has a single thread).
+    const auto my_id = FirstClaim();
+    fflush(stdout);
+    const pid_t pid = fork();
+    if (pid == 0) {
+      size_t got = ~0ULL;
+      std::thread t{[&] {
+        tl_probe_start = static_cast<int64_t>((my_id + kN - 1) % kN);
+        got = IDManager::GetThreadID();
+      }};
+      t.join();
+      _exit((got == my_id || IDManager::GetThreadID() != my_id) ? 1 : 0);
+    }
+    int st = 0;
+    if (pid > 0 && waitpid(pid, &st, 0) == pid) {
+      res.Add("fork_probes", 1);
+      if (!WIFEXITED(st) || WEXITSTATUS(st) != 0) {
+        Violate("C05", "same-id-held-by-two-running-threads:in-a-forked-child",
+                Fmt("capacity=%zu: after fork() the thread that called fork keeps ID %zu in the child, and a new thread of the child that probed that slot "
+                    "was given the same ID (or the forking thread's ID changed); child status %d",
+                    kN, my_id, st));
+      }
+    }
+  }
+  for (uint64_t round = 0; round < rounds && g_log.n_viol.load() == 0; ++round) {
+    const int k = (kN > 65536 && r.Chance(2, 3)) ? 16 : 8;
+    const uint64_t lo = 1ULL << k;
+    const uint64_t span = std::min<uint64_t>(lo, kN - lo);
+    const int pairs = 1 + static_cast<int>(r.Below(6));
+    std::vector<uint64_t> slots;
+    for (int i = 0; i < pairs; ++i) {
+      uint64_t x = r.Below(span);
+      bool dup = false;
+      for (auto v : slots) dup = dup || v == x || v == lo + x;
+      if (dup) continue;
+      slots.push_back(lo + x);
+      slots.push_back(x);
+    }
+    const size_t T = slots.size();
+    std::vector<uint64_t> ids(T, ~0ULL);
+    std::atomic<int> gate{0}, holders{0}, release{0};
+    std::vector<std::thread> ths;
+    for (size_t i = 0; i < T; ++i) {
+      ths.emplace_back([&, i] {
+        tl_probe_start = static_cast<int64_t>((slots[i] + kN - 1) % kN);
+        while (gate.load(std::memory_order_acquire) == 0) {
+        }
+        const auto id = FirstClaim();
+        ids[i] = id;
+        holders.fetch_add(1, kMo);
+        while (release.load(kMo) == 0) sched_yield();
+        if (IDManager::GetThreadID() != id) Violate("C05", "id-not-stable", Fmt("capacity %zu: %zu then %zu", kN, id, IDManager::GetThreadID()));
+      });
+    }
+    gate.store(1, std::memory_order_release);
+    const auto tw = NowNs();
+    while (holders.load(kMo) < static_cast<int>(T)) {
+      if (NowNs() - tw > g_cfg.hang_s * 1000000000ULL) {
+        Violate("C14", "GetThreadID-does-not-return:large-capacity", Fmt("capacity=%zu: only %d of %zu threads obtained an ID within %" PRIu64 " s", kN, holders.load(), T, g_cfg.hang_s));
+        res.counters["evaluations"] = done;
+        EmitResult(res, "hang");
+        fflush(stdout);
+        _exit(0);
+      }
+      sched_yield();
+    }
+    for (size_t i = 0; i < T; ++i) {
+      if (ids[i] >= kN) {
+        Violate("C05", "id-out-of-range", Fmt("GetThreadID returned %" PRIu64 " with capacity %zu (thread steered onto slot %" PRIu64 ")", ids[i], kN, slots[i]));
+      }
+      for (size_t j = 0; j < i; ++j) {
+        if (ids[i] == ids[j]) {
+          Violate("C05", "same-id-held-by-two-running-threads:capacity-above-2^8-or-2^16",
+                  Fmt("capacity=%zu: the threads steered onto the free slots %" PRIu64 " and %" PRIu64 " both hold ID %" PRIu64 " at the same time", kN, slots[j],
+                      slots[i], ids[i]));
+        }
+      }
+    }
+    release.store(1, kMo);
+    for (auto &t : ths) t.join();
+    pairs_total += T / 2;
+    ++done;
+  }
+  res.Add("large_capacity_rounds", done);
+  res.Add("large_capacity_slot_pairs", pairs_total);
+  res.Add("thread_lifetimes", pairs_total * 2);
+  res.counters["evaluations"] = pairs_total * 2;
+  res.signatures.push_back(Fmt("bigcap:N=%zu", kN));
+  res.samples.push_back(Fmt("{\"mode\":\"bigcap\",\"capacity\":%zu,\"rounds\":%" PRIu64 "}", kN, done));
   EmitResult(res, "ok");
   return 0;
 }
@@ -2586,6 +2709,7 @@ main(int argc, char **argv)
   if (g_cfg.mode == "storm") return idm::RunStorm();
   if (g_cfg.mode == "churnstorm") return idm::RunChurnStorm();
   if (g_cfg.mode == "handoff") return idm::RunHandoff();
+  if (g_cfg.mode == "bigcap") return idm::RunBigCap();
   if (g_cfg.mode == "epoch") return ep::Run();
   if (g_cfg.mode == "epochstart") return ep::RunStart();
   if (g_cfg.mode == "epochduo") return ep::duo::Run();
